@@ -504,7 +504,7 @@ pub fn rule_json(r: &Value) -> Result<Value, String> {
         ),
         _ => return Err("hf".into()),
     };
-    Ok(json!({
+    let mut out = json!({
         "id": id,
         "rank": rank,
         "source": {"path": "/x", "response_status_codes": get(r, "codes"), "exclude_response_status_codes": get(r, "excl"), "sampling": get(r, "sampling"),
@@ -520,7 +520,18 @@ pub fn rule_json(r: &Value) -> Result<Value, String> {
         "configuration_log_unit_id": get(r, "lu"),
         "configuration_reset_unit_id": get(r, "cu"),
         "target_hash": get(r, "th"),
-    }))
+    });
+    // optional triggers (c11: the same rule set spread over scheme / host / method / header / regex buckets)
+    if let Some(src) = get(r, "src").as_object() {
+        for (k, v) in src {
+            if k == "markers" {
+                out["markers"] = v.clone();
+            } else {
+                out["source"][k] = v.clone();
+            }
+        }
+    }
+    Ok(out)
 }
 
 pub fn build_rules(case: &Value) -> Result<Vec<Rule>, String> {
